@@ -82,6 +82,7 @@ type Client struct {
 	RawHeader []KV   `json:"raw_header,omitempty"`
 	RawBody   []byte `json:"raw_body,omitempty"`
 	UseRaw    bool   `json:"use_raw,omitempty"`
+	ExtraQuery []KV `json:"extra_query,omitempty"` // REST: appended to the rendered query string (already decoded form)
 	// Override replaces (or, with an empty value, removes) headers after encoding.
 	Override       []KV   `json:"override,omitempty"`
 	TargetOverride string `json:"target_override,omitempty"` // replaces the request-target
